@@ -9,10 +9,11 @@ from pyvc.task import task
 from pyvc.values import Obj, SBool, SInt, SReal, Stacked, TupleT, UVal
 from .common import *
 from .vmap import forall_i
-from pyvc.interp_ops import zint
+from pyvc.interp_ops import zint, zreal
 
 M = COMB + ".scan"
-FUNCS = [M + ":Scan." + m for m in ("_static_scan_length", "simulate", "generate", "assess", "project", "edit_update", "edit")] + \
+FUNCS = [M + ":Scan." + m for m in ("_static_scan_length", "simulate", "generate", "assess", "project", "edit_update", "edit_regenerate",
+                                    "edit_index", "edit")] + \
         [M + ":ScanTrace.build"]
 
 
@@ -147,3 +148,223 @@ def t_project(E):
     spec = E.I.make_sum(Stacked(n, lambda i: SReal(T.proj(kfn.t, inner.at(i).t, s.t))))
     E.prove("C10.Scan.project.sum_of_iteration_projections_with_the_same_selection", E.eq(p, spec))
     E.refutable("scan.project", E.eq(p, 0.0))
+
+
+def an_old_trace(E, sc, kfn, init, xs, n):
+    """arbitrary ScanTrace as built by the real ScanTrace.build from an arbitrary batch of well-formed kernel traces"""
+    T = E.I.T
+    batch = E.ctx.fn("old_elem", E.z3.IntSort(), U)
+
+    def el(i):
+        t = batch(i)
+        T.trace_facts(t, g=kfn.t)
+        return UVal(t, "Trace")
+    inner = Stacked(n, el, tag="old_inner")
+    old = E.call(M + ":ScanTrace.build", sc, inner, (init, xs), (E.opaque("old_carry_out"), E.opaque("old_ys", "array")),
+                 E.real("old_score"), SInt(n, True))
+    return old, inner
+
+
+def _edit_loop(E, kind):
+    """Scan.edit with Update(c) / Regenerate(s) and arbitrary (NoChange / UnknownChange) argument tags:
+       iteration i edits kernel trace i with its own sub-request, the carry of iteration i-1 and xs'[i]"""
+    z3, T = E.z3, E.I.T
+    sc, kfn, init, xs, n = setup(E)
+    k = key(E)
+    old, inner = an_old_trace(E, sc, kfn, init, xs, n)
+    new_init, new_xs = E.opaque("new_init"), E.opaque("new_xs", "array")
+    E.assume(E.ctx.fn("axis0_len", U, z3.IntSort())(new_xs.t) == n)          # argument changes keep shapes
+    E.assume(T.d_primal(new_init.t) == new_init.t)
+    ad = (diff(E, new_init, sym_tangent(E, "init_nochange")), diff(E, new_xs, sym_tangent(E, "xs_nochange")))
+    if kind == "update":
+        c = chm(E, "constraint")
+        req = update(E, c)
+        sub = lambda i: update(E, UVal(T.chm_inner(c.t, E.I.to_u(SInt(i, False))), "ChoiceMap"))
+    else:
+        s = E.opaque("sel", "Selection")
+        req = E.new(REQ + ":Regenerate", selection=s)
+        sub = lambda i: req                                                   # the SAME selection at every iteration
+    new, w, rd, bwd = E.method(sc, "edit", k, old, req, ad)
+    loop = E.I.scans[0]
+    E.cover(f"scan.edit_{kind}.reached")
+    P = f"Scan.edit_{kind}"
+    loop.prove_invariant(E, f"C12.{P}.counter_is_iteration_number", lambda i, cy: zint(cy[1]) == i)
+
+    def parts(i):
+        ck, cc, cv = loop.carry_at(i)
+        ki = fold(E, ck.t, i)
+        ad_i = E.I.to_u((cv, diff(E, x_at(E, new_xs, i), UnknownChange(E))))
+        a = (kfn.t, ki, inner.at(i).t, E.I.to_u(sub(i)), ad_i)
+        return ki, a
+
+    def rec(i):
+        ki, a = parts(i)
+        et, rdi = T.edit_tr(*a), T.edit_rd(*a)
+        new_i, out_i, s_i, w_i, bwd_i = loop.unfold(i)
+        nk, nc, nv = loop.carry_at(i + 1)
+        co, so = pair(E, T.d_primal(rdi))
+        want_bwd = E.ctx.fn("update_bwd_constraint", U, U)(T.edit_bwd(*a)) if kind == "update" else T.edit_bwd(*a)
+        return {"new_kernel_trace": E.eq(new_i, UVal(et, "Trace")),
+                "score_and_weight": E.And(E.eq(s_i, SReal(T.tr_score(et))), E.eq(w_i, SReal(T.edit_w(*a)))),
+                "backward_request": E.I.to_u(bwd_i) == want_bwd,
+                "carry_is_threaded": T.d_primal(E.I.to_u(nv)) == co.t,
+                "scanned_output": T.d_primal(E.I.to_u(out_i)) == so.t,
+                "key_chain": E.eq(nk, UVal(ki, "key"))}
+    for part in ("new_kernel_trace", "score_and_weight", "backward_request", "carry_is_threaded", "scanned_output", "key_chain"):
+        E.prove(f"C12.{P}.iteration_i_edits_kernel_trace_i_with_its_subrequest_and_the_carry_of_i-1.{part}",
+                forall_i(E, n, lambda i: rec(i)[part]))
+    c0 = loop.carry_at(z3.IntVal(0))
+    E.prove(f"C12.{P}.initial_carry_is_the_new_init", E.And(T.d_primal(E.I.to_u(c0[2])) == new_init.t, E.eq(c0[0], k)))
+    E.prove(f"C05.{P}.weight_is_sum_of_iteration_weights", E.eq(w, E.I.make_sum(Stacked(n, lambda i: loop.unfold(i)[3]))))
+    E.prove(f"C12.{P}.score_is_sum_of_new_kernel_scores",
+            E.eq(E.method(new, "get_score"), E.I.make_sum(Stacked(n, lambda i: loop.unfold(i)[2]))))
+    # C05 weight law.  ScanTrace invariant (established by every constructor: obligations C12.Scan.*.score_is_sum*): the old
+    # score is the sum of the old kernel scores.  Then  w = score' - score + sum_i slack_i  where slack_i is the kernel's own
+    # deviation from its score change (zero by the kernel's contract unless its edit introduces fresh choices).
+    old_sum = E.I.make_sum(Stacked(n, lambda i: SReal(T.tr_score(inner.at(i).t))))
+    E.assume(E.eq(E.method(old, "get_score"), old_sum))
+    slack = lambda i: (lambda a: SReal(T.edit_w(*a) - (T.tr_score(T.edit_tr(*a)) - T.tr_score(inner.at(i).t))))(parts(i)[1])
+    slack_sum = E.I.make_sum(Stacked(n, slack))
+    new_sum = E.I.make_sum(Stacked(n, lambda i: loop.unfold(i)[2]))
+    w_sum = E.I.make_sum(Stacked(n, lambda i: loop.unfold(i)[3]))
+    E.I.sum_linear([(1, w_sum), (-1, new_sum), (1, old_sum), (-1, slack_sum)])
+    E.prove(f"C05.{P}.weight_is_score_change_plus_the_kernel_slack_of_each_iteration", E.eq(
+        w, SReal(zreal(E.method(new, "get_score")) - zreal(E.method(old, "get_score")) + slack_sum.t)))
+    E.prove(f"C05.{P}.args_are_the_new_arguments", E.eq(E.method(new, "get_args"), (new_init, new_xs)))
+    ret = E.method(new, "get_retval")
+    E.prove(f"C12.{P}.retval_is_final_carry_and_stacked_outputs", E.And(
+        E.I.to_u(ret[0]) == T.d_primal(E.I.to_u(loop.carry_at(n)[2])),
+        forall_i(E, n, lambda i: E.I.to_u(ret[1].at(i)) == T.d_primal(E.I.to_u(loop.unfold(i)[1])))))
+    E.prove(f"C08.{P}.retdiff_carries_the_new_retval",
+            E.eq(E.call(INC + ":Diff.tree_primal", rd), ret))
+    return dict(sc=sc, kfn=kfn, n=n, new=new, w=w, rd=rd, bwd=bwd, loop=loop, ret=ret, new_init=new_init, new_xs=new_xs,
+                parts=parts, old=old, inner=inner)
+
+
+@task("scan.edit_update", props=["C01", "C05", "C06", "C08", "C12"], functions=FUNCS)
+def t_edit_update(E):
+    z3, T = E.z3, E.I.T
+    r = _edit_loop(E, "update")
+    bwd, n, loop = r["bwd"], r["n"], r["loop"]
+    E.prove("C06.Scan.edit_update.bwd_is_update_of_stacked_iteration_constraints", E.And(
+        is_obj(bwd, "Update"),
+        forall_i(E, n, lambda i: E.eq(fld(E, bwd, "constraint").at(i), loop.unfold(i)[4]))))
+    _edit_wf(E, r, "update")
+    E.refutable("scan.edit_update", E.eq(r["w"], 0.0))
+
+
+@task("scan.edit_regenerate", props=["C01", "C06", "C07", "C08", "C12"], functions=FUNCS)
+def t_edit_regenerate(E):
+    z3, T = E.z3, E.I.T
+    r = _edit_loop(E, "regenerate")
+    bwd, n, loop, sc, new = r["bwd"], r["n"], r["loop"], r["sc"], r["new"]
+    E.prove("C06.Scan.edit_regenerate.bwd_stacks_the_iteration_backward_requests", E.And(
+        is_obj(bwd, "VectorRequest"),
+        forall_i(E, n, lambda i: E.eq(fld(E, bwd, "request").at(i), loop.unfold(i)[4]))))
+    _edit_wf(E, r, "regenerate")
+    # C06: the backward request must be one that Scan.edit can apply to the new trace
+    k2 = key(E, "key2")
+    ad = E.call(INC + ":Diff.no_change", (r["new_init"], r["new_xs"]))
+    st, val = E.attempt(lambda: E.method(sc, "edit", k2, new, bwd, ad))
+    E.prove("C06.Scan.edit_regenerate.bwd_request_is_accepted_by_Scan.edit", st == "ok")
+    E.refutable("scan.edit_regenerate", E.eq(r["w"], 0.0))
+
+
+def a_loop_trace(E, sc, kfn, init, xs, n):
+    """an arbitrary ScanTrace satisfying the representation invariant established by Scan.simulate / generate / edit (proved:
+    C12.Scan.*.iteration_i_..., retval_is_final_carry_and_stacked_outputs): kernel trace i was run on (carry_i, xs[i]),
+    carry_{i+1} is its first return component, the stacked outputs are the second components, carry_0 = init"""
+    z3, T = E.z3, E.I.T
+    batch = E.ctx.fn("old_elem", z3.IntSort(), U)
+    carry = E.ctx.fn("old_carry", z3.IntSort(), U)
+    p0, p1 = E.ctx.fn("proj_2_0", U, U), E.ctx.fn("proj_2_1", U, U)
+
+    def el(i):
+        t = batch(i)
+        inr = z3.And(i >= 0, i < n)
+        # facts only for indices in range (an out-of-range slice is whatever JAX's clamped gather returns)
+        E.assume(z3.Implies(inr, z3.And(
+            T.tr_genfn(t) == kfn.t, T.tr_args(t) == E.I.to_u((UVal(carry(i)), x_at(E, xs, i))), T.wf(t),
+            T.d_primal(T.tr_retval(t)) == T.tr_retval(t), T.d_primal(T.tr_args(t)) == T.tr_args(t),
+            z3.Not(T.is_Mask(T.tr_retval(t))), z3.Not(T.is_None(T.tr_retval(t))),
+            p0(T.tr_retval(t)) == carry(i + 1), T.d_primal(carry(i)) == carry(i), T.d_primal(carry(i + 1)) == carry(i + 1))))
+        return UVal(t, "Trace")
+    inner = Stacked(n, el, tag="old_inner")
+    E.assume(z3.And(n >= 1, carry(0) == init.t))
+    ys = Stacked(n, lambda i: UVal(p1(T.tr_retval(batch(i)))), tag="old_ys")
+    score = E.I.make_sum(Stacked(n, lambda i: SReal(T.tr_score(batch(i)))))
+    old = E.call(M + ":ScanTrace.build", sc, inner, (init, xs), (UVal(carry(n)), ys), score, SInt(n, True))
+    return old, inner, carry, ys
+
+
+@task("scan.edit_index", props=["C01", "C05", "C06", "C12"], functions=FUNCS)
+def t_edit_index(E):
+    """IndexRequest(idx, r) with unchanged arguments: slice idx is edited by r, slice idx+1 (when there is one) is re-visited
+    with the changed carry, every other slice is kept; the trace is again a trace of the documented loop"""
+    z3, T = E.z3, E.I.T
+    sc, kfn, init, xs, n = setup(E)
+    k = key(E)
+    old, inner, carry, ys = a_loop_trace(E, sc, kfn, init, xs, n)
+    idx = E.int("idx", conc=False)
+    E.assume(z3.And(idx.t >= 0, idx.t < n))
+    req = E.opaque("subrequest", "EditRequest")
+    ireq = E.new(CONCEPTS + ":IndexRequest", idx=idx, request=req)
+    ad = E.call(INC + ":Diff.no_change", (init, xs))
+    st, val = E.attempt(lambda: E.method(sc, "edit", k, old, ireq, ad))
+    if st != "ok":
+        # the documented restriction of this edit: the next slice's return value must be (statically) unchanged
+        E.prove("C12.Scan.edit_index.only_raises_its_documented_assertion", val.kind == "AssertionError")
+        return
+    new, w, rd, bwd = val
+    E.cover("scan.edit_index.reached")
+    last = idx.t + 1 >= n
+    # slice idx is edited with its own stored arguments (= (carry_idx, xs[idx]) by the trace invariant), tagged NoChange
+    a1 = (kfn.t, k.t, inner.at(idx.t).t, req.t,
+          E.I.to_u(E.call(INC + ":Diff.no_change", E.method(inner.at(idx.t), "get_args"))))
+    t1, rd1 = T.edit_tr(*a1), T.edit_rd(*a1)
+    p0, p1 = E.ctx.fn("proj_2_0", U, U), E.ctx.fn("proj_2_1", U, U)
+    empty_update = update(E, UVal(T.EMPTY, "ChoiceMap"))
+    a2 = (kfn.t, k.t, inner.at(idx.t + 1).t, E.I.to_u(empty_update),
+          E.I.to_u((UVal(p0(rd1), "retdiff"), E.call(INC + ":Diff.no_change", x_at(E, xs, idx.t + 1)))))
+    t2 = T.edit_tr(*a2)
+    ni = new.fields["inner"]
+    E.prove("C12.Scan.edit_index.slice_idx_is_edited_by_the_subrequest", E.eq(ni.at(idx.t), UVal(t1, "Trace")))
+    E.prove("C12.Scan.edit_index.next_slice_is_revisited_with_the_changed_carry",
+            E.Implies(z3.Not(last), E.eq(ni.at(idx.t + 1), UVal(t2, "Trace"))))
+    E.prove("C12.Scan.edit_index.frame_other_slices_unchanged", forall_i(
+        E, n, lambda i: E.Implies(z3.And(i != idx.t, i != idx.t + 1), E.eq(ni.at(i), inner.at(i)))))
+    E.prove("C05.Scan.edit_index.weight_is_slice_weight_plus_next_slice_weight",
+            E.eq(w, SReal(T.edit_w(*a1) + z3.If(last, z3.RealVal(0), T.edit_w(*a2)))))
+    E.prove("C06.Scan.edit_index.bwd_is_index_request_of_slice_bwd", E.And(
+        is_obj(bwd, "IndexRequest"), E.eq(fld(E, bwd, "idx"), idx), E.I.to_u(fld(E, bwd, "request")) == T.edit_bwd(*a1)))
+    ret = E.method(new, "get_retval")
+    E.prove("C12.Scan.edit_index.final_carry", E.I.to_u(ret[0]) == z3.If(last, T.d_primal(p0(rd1)), carry(n)))
+    E.prove("C12.Scan.edit_index.stacked_outputs", forall_i(
+        E, n, lambda i: E.I.to_u(ret[1].at(i)) == z3.If(i == idx.t, T.d_primal(p1(rd1)), E.I.to_u(ys.at(i)))))
+    E.prove("C05.Scan.edit_index.args_unchanged", E.eq(E.method(new, "get_args"), (init, xs)))
+    # C01: the new trace is a trace of the loop: assess re-runs it in lockstep along the new carry chain
+    new_carry = lambda i: z3.If(i == idx.t + 1, T.d_primal(p0(rd1)), carry(i))
+    nb = len(E.I.scans)
+    score, aret = wf(E, sc, new)
+    al = E.I.scans[nb]
+    al.prove_invariant(E, "C01.Scan.assess.lockstep_with_edit_index",
+                       lambda i, c: z3.And(zint(c[0]) == i, E.I.to_u(c[1]) == new_carry(i)))
+    E.prove("C01.Scan.edit_index.wf.score", E.eq(score, E.method(new, "get_score")))
+    E.prove("C01.Scan.edit_index.wf.final_carry", E.eq(aret[0], ret[0]))
+    E.prove("C01.Scan.edit_index.wf.stacked_outputs", forall_i(E, n, lambda i: E.eq(aret[1].at(i), ret[1].at(i))))
+    E.refutable("scan.edit_index", E.eq(w, 0.0))
+
+
+def _edit_wf(E, r, kind):
+    """C01: assess on the new trace's own choices and arguments re-runs the loop in lockstep"""
+    z3 = E.z3
+    loop, new, ret, n = r["loop"], r["new"], r["ret"], r["n"]
+    nb = len(E.I.scans)
+    score, aret = wf(E, r["sc"], new)
+    al = E.I.scans[nb]
+    T = E.I.T
+    al.prove_invariant(E, f"C01.Scan.assess.lockstep_with_edit_{kind}",
+                       lambda i, c: z3.And(zint(c[0]) == i, E.I.to_u(c[1]) == T.d_primal(E.I.to_u(loop.carry_at(i)[2]))))
+    E.prove(f"C01.Scan.edit_{kind}.wf.score", E.eq(score, E.method(new, "get_score")))
+    E.prove(f"C01.Scan.edit_{kind}.wf.final_carry", E.eq(aret[0], ret[0]))
+    E.prove(f"C01.Scan.edit_{kind}.wf.stacked_outputs", forall_i(E, n, lambda i: E.eq(aret[1].at(i), ret[1].at(i))))
